@@ -1,0 +1,13 @@
+//go:build verif
+
+package pop3
+
+import "net"
+
+// VerifWrapListener replaces the listener the accept loop uses by wrap(listener), so that the
+// verification harness can hold the serve goroutine between the moment the kernel hands over a
+// connection and the moment Accept returns to the loop (i.e. before wg.Add). Call it after Start
+// has created the listener; the loop picks the wrapper up at its next Accept call.
+func (s *Server) VerifWrapListener(wrap func(net.Listener) net.Listener) {
+	s.listener = wrap(s.listener)
+}
